@@ -41,10 +41,16 @@ pub struct Track<'a> {
     pub page: usize,
     pub host: *mut u8,
     pub size: usize,
+    /// view of the region's bytes that does not go through a host pointer (regions mapped on
+    /// demand have none; `host` is then null, which is also what the library aligns against)
+    pub raw: Option<&'a dyn Fn() -> Vec<u8>>,
 }
 
 impl Track<'_> {
     fn bytes(&self) -> Vec<u8> {
+        if let Some(f) = self.raw {
+            return f();
+        }
         // SAFETY: host..host+size is the region's memory.
         (0..self.size).map(|i| unsafe { self.host.add(i).read_volatile() }).collect()
     }
@@ -120,6 +126,9 @@ fn judge(mode: Mode, tracks: &[Track], before_b: &[Vec<u8>], before_p: &[Vec<boo
 }
 
 fn complement(tr: &Track, off: usize, n: usize) -> Vec<u8> {
+    if let Some(f) = tr.raw {
+        return f()[off..off + n].iter().map(|b| !b).collect();
+    }
     // SAFETY: off+n <= size is guaranteed by the callers.
     (0..n).map(|i| unsafe { !tr.host.add(off + i).read_volatile() }).collect()
 }
@@ -155,7 +164,32 @@ fn typed_write<T: Pod, B: BitmapSlice>(s: &VolatileSlice<'_, B>, tr: &Track, ri:
     let sl = s.len();
     let sz = T::N;
     let mut rep = OpReport { written: vec![], failed_fd_target: None, is_write: true };
-    match t.below(5) {
+    match t.below(6) {
+        5 => {
+            // an element array elsewhere -> copy_to_volatile_slice(sub-slice of s)
+            let doff = t.idx(sl + 1);
+            let dlen = t.idx(sl - doff + 1);
+            let dst = s.subslice(doff, dlen).map_err(|e| format!("{:?}", e))?;
+            let n = match t.below(3) {
+                0 => dlen / sz,
+                1 => dlen / sz + 1 + t.idx(2),
+                _ => t.idx(dlen / sz + 1),
+            };
+            let cnt = (n * sz).min(dlen);
+            let mut src = complement(tr, co + doff, cnt);
+            src.resize(n * sz, 0x77);
+            // SAFETY: src is a live local buffer of n * sz bytes.
+            let ss = unsafe { VolatileSlice::new(src.as_mut_ptr(), n * sz) };
+            let ar = ss.get_array_ref::<T>(0, n).map_err(|e| format!("{:?}", e))?;
+            note!(cx, "extern array::<{}>[{}].copy_to_volatile_slice(slice[{}..+{}])", T::NAME, n, doff, dlen);
+            ar.copy_to_volatile_slice(dst);
+            if cnt > 0 {
+                rep.written.push((ri, co + doff, cnt));
+                classify_write(tr, co + doff, cnt, cx);
+            } else {
+                rep.is_write = false;
+            }
+        }
         0 => {
             // get_ref(o).store
             if sl < sz {
@@ -483,7 +517,11 @@ fn slice_op<B: BitmapSlice>(s: &VolatileSlice<'_, B>, tr: &Track, ri: usize, co:
             }
             let _ = s.get_slice(off, len);
             let _ = s.get_ref::<u64>(off);
-            let _ = s.get_atomic_ref::<std::sync::atomic::AtomicU32>(off);
+            // plain references into memory that is only mapped on demand are the caller's
+            // business (DESIGN.md 9.2): not generated there
+            if !(tr.raw.is_some() && tr.host.is_null()) {
+                let _ = s.get_atomic_ref::<std::sync::atomic::AtomicU32>(off);
+            }
             cx.nt("read_type_op");
         }
     }
@@ -492,7 +530,7 @@ fn slice_op<B: BitmapSlice>(s: &VolatileSlice<'_, B>, tr: &Track, ri: usize, co:
 
 /// Derive an accessor from `root` through a chain of in-range derivations; returns the composed
 /// offset. Calls `f` with the final slice.
-fn with_chain<B: BitmapSlice, R>(root: &VolatileSlice<'_, B>, t: &mut Tape, cx: &mut Cx, f: &mut dyn FnMut(&VolatileSlice<'_, B>, usize, &mut Tape, &mut Cx) -> R) -> Result<R, String> {
+fn with_chain<B: BitmapSlice, R>(root: &VolatileSlice<'_, B>, origin: usize, t: &mut Tape, cx: &mut Cx, f: &mut dyn FnMut(&VolatileSlice<'_, B>, usize, &mut Tape, &mut Cx) -> R) -> Result<R, String> {
     fn rec<B: BitmapSlice, R>(cur: &VolatileSlice<'_, B>, co: usize, depth: usize, left: usize, t: &mut Tape, cx: &mut Cx, f: &mut dyn FnMut(&VolatileSlice<'_, B>, usize, &mut Tape, &mut Cx) -> R) -> Result<R, String> {
         if left == 0 {
             if depth >= 2 {
@@ -545,7 +583,7 @@ fn with_chain<B: BitmapSlice, R>(root: &VolatileSlice<'_, B>, t: &mut Tape, cx: 
         }
     }
     let depth = t.idx(4);
-    rec(root, 0, 0, depth, t, cx, f)
+    rec(root, origin, 0, depth, t, cx, f)
 }
 
 fn maybe_reset(tracks: &[Track], t: &mut Tape, cx: &mut Cx) {
@@ -563,7 +601,8 @@ fn maybe_reset(tracks: &[Track], t: &mut Tape, cx: &mut Cx) {
     }
 }
 
-fn drive_slice<B: BitmapSlice>(mode: Mode, root: &VolatileSlice<'_, B>, tracks: &[Track], t: &mut Tape, cx: &mut Cx) -> Result<(), String> {
+/// `origin` = offset of the root slice inside the tracked region.
+fn drive_slice<B: BitmapSlice>(mode: Mode, root: &VolatileSlice<'_, B>, origin: usize, tracks: &[Track], t: &mut Tape, cx: &mut Cx) -> Result<(), String> {
     let nops = 1 + t.idx(12);
     for step in 0..nops {
         if t.exhausted() && step > 0 {
@@ -576,7 +615,7 @@ fn drive_slice<B: BitmapSlice>(mode: Mode, root: &VolatileSlice<'_, B>, tracks: 
         if cx.verbose {
             desc_mark = cx.desc.len();
         }
-        let rep = with_chain(root, t, cx, &mut |s, co, t, cx| slice_op(s, &tracks[0], 0, co, t, cx))??;
+        let rep = with_chain(root, origin, t, cx, &mut |s, co, t, cx| slice_op(s, &tracks[0], 0, co, t, cx))??;
         let what = if cx.verbose { cx.desc[desc_mark..].to_string() } else { format!("step {}", step) };
         judge(mode, tracks, &before_b, &before_p, &rep, &what)?;
     }
@@ -607,8 +646,19 @@ pub fn run_bare(mode: Mode, t: &mut Tape, cx: &mut Cx) -> Result<(), String> {
     let flavour = t.below(4);
     // sliced flavours live at a non-zero base inside a larger bitmap
     let base = if flavour >= 2 { 1 + t.idx(3 * page + 5) } else { 0 };
-    let bm = Arc::new(AtomicBitmap::new(base + size + t.idx(2 * page), NonZeroUsize::new(page).unwrap()));
-    let tracks = [Track { bm: &bm, base, page, host: fr.ptr(), size }];
+    let total = base + size + t.idx(2 * page);
+    let bm = if t.chance(1, 4) {
+        // a bitmap that was created smaller and grown to its size
+        let first = t.idx(total + 1);
+        let mut b = AtomicBitmap::new(first, NonZeroUsize::new(page).unwrap());
+        b.enlarge(total - first);
+        cx.nt("enlarged_bitmap");
+        note!(cx, "bitmap created for {} bytes and enlarged by {}", first, total - first);
+        Arc::new(b)
+    } else {
+        Arc::new(AtomicBitmap::new(total, NonZeroUsize::new(page).unwrap()))
+    };
+    let tracks = [Track { bm: &bm, base, page, host: fr.ptr(), size, raw: None }];
     note!(cx, "bare slice of {} bytes, page {}, flavour {}, bitmap base {}", size, page, ["RefSlice", "Option<RefSlice>", "RefSlice@base", "ArcSlice@base"][flavour as usize], base);
     if page == 1 {
         cx.label("page_size_1");
@@ -620,18 +670,18 @@ pub fn run_bare(mode: Mode, t: &mut Tape, cx: &mut Cx) -> Result<(), String> {
     match flavour {
         0 | 2 => {
             let root = unsafe { VolatileSlice::with_bitmap(fr.ptr(), size, bm.slice_at(base), None) };
-            drive_slice(mode, &root, &tracks, t, cx)?;
+            drive_slice(mode, &root, 0, &tracks, t, cx)?;
         }
         1 => {
             let root = unsafe { VolatileSlice::with_bitmap(fr.ptr(), size, Some(bm.slice_at(base)), None) };
             cx.label("optional_bitmap");
-            drive_slice(mode, &root, &tracks, t, cx)?;
+            drive_slice(mode, &root, 0, &tracks, t, cx)?;
         }
         _ => {
             let sl: ArcSlice<AtomicBitmap> = ArcSlice::new(bm.clone(), base);
             let root = unsafe { VolatileSlice::with_bitmap(fr.ptr(), size, sl, None) };
             cx.label("arc_slice_bitmap");
-            drive_slice(mode, &root, &tracks, t, cx)?;
+            drive_slice(mode, &root, 0, &tracks, t, cx)?;
         }
     }
     fr.canaries_ok()
@@ -657,35 +707,124 @@ pub fn run_region(mode: Mode, t: &mut Tape, cx: &mut Cx) -> Result<(), String> {
     let r = tracked_region(size, page)?;
     note!(cx, "MmapRegion of {} bytes with its own bitmap, page {}", size, page);
     cx.label("mmap_region_level");
-    let tracks = [Track { bm: r.bitmap(), base: 0, page, host: r.as_ptr(), size }];
-    let root = r.as_volatile_slice();
-    drive_slice(mode, &root, &tracks, t, cx)
+    let tracks = [Track { bm: r.bitmap(), base: 0, page, host: r.as_ptr(), size, raw: None }];
+    if t.flag() {
+        let root = r.as_volatile_slice();
+        drive_slice(mode, &root, 0, &tracks, t, cx)
+    } else {
+        // a window of the region obtained from the region itself
+        let o = t.idx(size + 1);
+        let c = t.idx(size - o + 1);
+        note!(cx, "root = region.get_slice({}, {})", o, c);
+        cx.nt("root_is_region_window");
+        let root = r.get_slice(o, c).map_err(|e| format!("region.get_slice({},{}): {:?}", o, c, e))?;
+        drive_slice(mode, &root, o, &tracks, t, cx)
+    }
 }
 
+/// xen build: a region of every emulated kind with the bitmap the library gives it (one bit per
+/// 4096 bytes); the region-wide slice carries the region's bitmap and, for grant regions mapped
+/// on demand, the mapping information instead of a host pointer.
 #[cfg(feature = "xen")]
-pub fn run_region(_mode: Mode, _t: &mut Tape, _cx: &mut Cx) -> Result<(), String> {
+pub fn run_region(mode: Mode, t: &mut Tape, cx: &mut Cx) -> Result<(), String> {
+    use crate::xen_emul::{build as xbuild, gen_kind, reset, Kind as XKind};
+    reset();
+    let kind = gen_kind(t);
+    let size = t.pick(&[4096usize + 17, 2 * 4096, 3 * 4096 - 1, 3 * 4096, 300, 4096]);
+    let base = 0x1000 * (1 + t.below(4));
+    let xr = xbuild::<AtomicBitmap>(kind, base, size)?;
+    note!(cx, "{:?} region of {} bytes with the bitmap the library created", kind, size);
+    cx.label("mmap_region_level");
+    cx.nt("xen_region_level");
+    if kind == XKind::GrantOnDemand {
+        cx.nt("xen_on_demand_region");
+    }
+    let raw = || xr.raw_read();
+    let host = if kind == XKind::GrantOnDemand { std::ptr::null_mut() } else { xr.region.as_ptr() };
+    let tracks = [Track { bm: xr.region.bitmap(), base: 0, page: 4096, host, size, raw: Some(&raw) }];
+    if t.flag() {
+        let root = xr.region.as_volatile_slice().map_err(|e| format!("as_volatile_slice: {:?}", e))?;
+        drive_slice(mode, &root, 0, &tracks, t, cx)?;
+    } else {
+        let o = t.idx(size + 1);
+        let c = t.idx(size - o + 1);
+        note!(cx, "root = region.get_slice({}, {})", o, c);
+        cx.nt("root_is_region_window");
+        let root = xr.region.get_slice(vm_memory::MemoryRegionAddress(o as u64), c).map_err(|e| format!("region.get_slice({},{}): {:?}", o, c, e))?;
+        drive_slice(mode, &root, o, &tracks, t, cx)?;
+    }
+    ensure!(crate::xen_emul::live().len() <= 1, "temporary windows remain after the case: {:x?}", crate::xen_emul::live());
     Ok(())
 }
 
+type RawView = Box<dyn Fn() -> Vec<u8>>;
+
 /// Guest-memory level: 2..3 regions, each with its own bitmap and page size.
 #[cfg(not(feature = "xen"))]
-pub fn run_guest(mode: Mode, t: &mut Tape, cx: &mut Cx) -> Result<(), String> {
+fn build_guest(t: &mut Tape, cx: &mut Cx) -> Result<(GuestMemoryMmap<AtomicBitmap>, Layout, Vec<usize>, Vec<Option<RawView>>), String> {
     let lay = gen_layout(t, 3, TopMode::Mmap, false);
     let mut regions = Vec::new();
     let mut pages = Vec::new();
+    let mut raws = Vec::new();
     for &(s, l) in &lay.regs {
         let page = gen_page(t, l as usize);
         pages.push(page);
         let r = tracked_region(l as usize, page)?;
         regions.push(GuestRegionMmap::new(r, GuestAddress(s)).map_err(|e| format!("{:?}", e))?);
+        raws.push(None);
     }
     let mem = GuestMemoryMmap::from_regions(regions).map_err(|e| format!("{:?}", e))?;
     note!(cx, "guest memory {} page sizes {:?}", lay.describe(), pages);
+    Ok((mem, lay, pages, raws))
+}
+
+/// xen build: 2..3 emulated regions of generated kinds (Unix, foreign, grant mapped in advance or
+/// on demand), page-granular bases, some adjacent, each with the library's bitmap (4096-byte
+/// pages).
+#[cfg(feature = "xen")]
+fn build_guest(t: &mut Tape, cx: &mut Cx) -> Result<(GuestMemoryMmap<AtomicBitmap>, Layout, Vec<usize>, Vec<Option<RawView>>), String> {
+    use crate::xen_emul::{build as xbuild, gen_kind, reset, Kind as XKind};
+    reset();
+    let n = 2 + t.idx(2);
+    let mut lay = Layout { regs: vec![] };
+    let mut regions = Vec::new();
+    let mut raws: Vec<Option<RawView>> = Vec::new();
+    let mut next = 0x4000u64;
+    let mut desc = String::new();
+    for _ in 0..n {
+        let kind = gen_kind(t);
+        let size = t.pick(&[4096usize, 2 * 4096, 4096 + 17, 3 * 4096 - 1, 300, 2 * 4096]);
+        // adjacent to the previous region where that ended on a page boundary, else after a gap
+        let base = if next % 4096 == 0 && t.flag() { next } else { (next + 0x2fff) & !0xfff };
+        let xr = xbuild::<AtomicBitmap>(kind, base, size)?;
+        desc.push_str(&format!("{:?}@{:#x}+{:#x} ", kind, base, size));
+        if kind == XKind::GrantOnDemand {
+            cx.nt("xen_on_demand_region");
+        }
+        lay.regs.push((base, size as u64));
+        next = base + size as u64;
+        let crate::xen_emul::XenRegion { region, file, .. } = xr;
+        let host = region.as_ptr() as usize;
+        raws.push(Some(match file {
+            Some((f, off)) => Box::new(move || pread_all(&f, off, size)),
+            // SAFETY: anonymous unix mapping of `size` bytes, alive as long as the memory object.
+            None => Box::new(move || (0..size).map(|i| unsafe { ((host + i) as *const u8).read_volatile() }).collect()),
+        }));
+        regions.push(Arc::new(region));
+    }
+    let mem = GuestMemoryMmap::from_arc_regions(regions).map_err(|e| format!("{:?}", e))?;
+    note!(cx, "xen guest memory {}", desc);
+    cx.nt("xen_guest_level");
+    Ok((mem, lay, vec![4096; n], raws))
+}
+
+pub fn run_guest(mode: Mode, t: &mut Tape, cx: &mut Cx) -> Result<(), String> {
+    let (mem, lay, pages, raws) = build_guest(t, cx)?;
     cx.label("guest_memory_level");
     let tracks: Vec<Track> = mem
         .iter()
         .enumerate()
-        .map(|(i, r)| Track { bm: r.bitmap(), base: 0, page: pages[i], host: r.as_ptr(), size: r.len() as usize })
+        .map(|(i, r)| Track { bm: r.bitmap(), base: 0, page: pages[i], host: r.as_ptr(), size: r.len() as usize, raw: raws[i].as_ref().map(|b| &**b as &dyn Fn() -> Vec<u8>) })
         .collect();
     let pts = lay.points();
     let nops = 1 + t.idx(12);
@@ -722,10 +861,30 @@ pub fn run_guest(mode: Mode, t: &mut Tape, cx: &mut Cx) -> Result<(), String> {
             }
             d
         };
-        let op = t.below(9);
+        let op = t.below(10);
         let len = crate::p03_flat::pick_len(t, run as u128, 300);
         let what;
         match op {
+            9 => {
+                // a slice obtained from guest memory, written through
+                let i = lay.find(a);
+                let inreg = i.map(|i| (lay.regs[i].0 + lay.regs[i].1 - a) as usize).unwrap_or(0);
+                let n = len.min(inreg);
+                what = format!("guest get_slice(@ {:#x}, {}) + write_slice through it", a, n);
+                match mem.get_slice(ga, n) {
+                    Ok(s) => {
+                        ensure!(i.is_some(), "get_slice at an unmapped address succeeded");
+                        let data = comp(n);
+                        s.write_slice(&data, 0).map_err(|e| format!("write through a guest slice: {:?}", e))?;
+                        rep.written = ranges(n);
+                        cx.nt("guest_slice_write");
+                    }
+                    Err(_) => {
+                        ensure!(i.is_none(), "{}: refused", what);
+                        cx.nt("rejected_request");
+                    }
+                }
+            }
             0 | 1 | 2 => {
                 let (len, ty) = if op == 2 { let ty = t.idx(NOBJ); (OBJ_SIZES[ty], ty) } else { (len, 0) };
                 let n = len.min(run);
@@ -825,10 +984,6 @@ pub fn run_guest(mode: Mode, t: &mut Tape, cx: &mut Cx) -> Result<(), String> {
     Ok(())
 }
 
-#[cfg(feature = "xen")]
-pub fn run_guest(_mode: Mode, _t: &mut Tape, _cx: &mut Cx) -> Result<(), String> {
-    Ok(())
-}
 
 #[allow(dead_code)]
 fn _unused(_: Le32, _: Be64, _: RefSlice<'_, AtomicBitmap>) {}
